@@ -240,7 +240,7 @@ package jsonrpc2
 // put there (the only place the key is set): assumed.
 //@ func Async [C03]
 //@   track release as releaseDispatcher
-//@   modifies *
+//@   modifies fields(releaser.released), chanState   // it releases the dispatcher and touches nothing else
 //@   assert at call release: @hard-release !$1
 //@   ensures @at-most-one-release calls(releaseDispatcher) <= 1
 
